@@ -704,6 +704,9 @@ func (e *Enc) evalCall(env *Env, n CCall, cur, old *State) Val {
 			e.evalFail(env, "unknown type %s", n.Args[0])
 		}
 		return Val{T: e.sorts.Zero(t), Typ: t}
+	case "f2i":
+		f := e.sc.DeclFun("f2i", []string{"Real"}, "Int")
+		return Val{T: app(f, arg(0).T), Typ: tInt}
 	case "isSentinel":
 		// dynamic type *errors.errorString (values made by errors.New)
 		return Val{T: fmt.Sprintf("(= (if_typ %s) %d)", arg(0).T, e.sorts.TypeIDNamed("*errors.errorString")), Typ: tBool}
